@@ -138,6 +138,9 @@ func parseSgn(n string) sgn {
 func chainLattice() []*big.Int {
 	return []*big.Int{
 		big.NewInt(1), big.NewInt(3), big.NewInt(110) /* V = 255/256: nine bits */, big.NewInt(61717561), /* aquachain mainnet */
+		// 1+27 and 3+28: V - 2c - 8 of a transaction signed for chain 1 (3) is -27 (-28) under these signers, which only the
+		// chain id comparison keeps away from recoverPlain's unsigned reading of V
+		big.NewInt(28), big.NewInt(31),
 		new(big.Int).Lsh(big.NewInt(1), 31), new(big.Int).Lsh(big.NewInt(1), 62),
 		new(big.Int).Add(new(big.Int).Lsh(big.NewInt(1), 64), big.NewInt(5)), // V does not fit 64 bits
 	}
@@ -296,7 +299,7 @@ func TestCheck(t *testing.T) {
 		"every replacement of one field by another lattice value, a V/R/S boundary lattice, every (signed-under, queried-under) signer pair, every ordered signer pair for the sender cache, " +
 		"RLP and JSON round trips, TxPool.AddRemote and ApplyTransaction on the signature-relevant variants. A class is (scenario, signer kind, changed field, outcome) and is counted only when the real recovery ran."
 	run.Assume("keys {1, 2, N-1, a 31-byte D, two ordinary}; contents nonce{0,1,2^64-1} x price{0,1} x gas{21000} x to{nil,addr} x value{0,1,2^256-1} x data{empty,00,ff*33}")
-	run.Assume("signers Frontier, Homestead, EIP-155 with chain ids {1, 3, 110, 61717561, 2^31, 2^62, 2^64+5}")
+	run.Assume("signers Frontier, Homestead, EIP-155 with chain ids {1, 3, 28, 31, 110, 61717561, 2^31, 2^62, 2^64+5}")
 	run.Assume("the reference accepts high-S only under the Frontier signer (EIP-2 applies from Homestead on, and EIP-155 implies Homestead)")
 	run.Assume("elliptic-curve arithmetic (btcec RecoverCompact) is shared between the code under test and the reference; the rules around it are not")
 	rep := &reporter{run: run}
